@@ -9,6 +9,7 @@ post-condition on the real Enforcer.enforce: do_raise never yields a falsy
 return.  A share of the triples additionally goes through every calling
 convention (do_raise omitted / by keyword / positional / non-bool spellings,
 exception class and extra arguments by keyword or positionally)."""
+import collections.abc
 import json
 import copy
 
@@ -36,7 +37,15 @@ RULE = ('cases = (rule set from the expression generator + fixed always-allow/de
         'extra arguments given positionally or by keyword in either order, and the non-bool spellings None, 0, "" (off) and 1, "yes" (on): every off spelling '
         'returns (never raises) a value of the truth value of the plain call; every on spelling is related to the plain call as the statement says '
         '(InvalidScope / the class built from exactly the arguments given / PolicyNotAuthorized naming the policy / truthy return); authorize: the same '
-        'outcome as enforce per convention for registered names, PolicyNotRegistered with nothing evaluated otherwise.')
+        'outcome as enforce per convention for registered names, PolicyNotRegistered with nothing evaluated otherwise. '
+        'Stratum `lookup`: fresh enforcers (in-memory rules with use_conf=False, or a policy file) whose default rule is the built-in name, the Enforcer '
+        'argument or the configured policy_default_rule and is defined as deny / allow / a data-dependent rule / not at all (a decoy rule merely called '
+        '"default" included), some names registered (one of them absent from the rule set); credentials (dict or a non-dict MutableMapping) and targets whose '
+        'keys and values contain the words the debug dump masks (password, token, secret, auth_token ... as whole keys, parts of keys, other letter case, in '
+        'nested dictionaries and lists, dotted target keys like target.secret.project_id, values like password=abc), read by the rules through %(key)s '
+        'placeholders, attribute paths and literals; requested: every defined name, the default rule itself, names defined nowhere - each in the three modes of '
+        'enforce and authorize with debug logging off and on: modes related as the statement says, PolicyNotAuthorized names the REQUESTED policy also when the '
+        'default rule served it, the decision is that of the rule on the caller\'s own data (reference evaluation) and identical with logging on, inputs unmodified.')
 ASSUMPTIONS = ['the documented mirroring of system_scope into system is the only permitted change to the credentials',
                'the message of PolicyNotAuthorized "names the policy" = contains str(rule) for rules given by name',
                'do_raise "off" includes leaving the argument out (its documented default) and "on"/"off" are read by truth value (None, 0, "" = off; '
@@ -49,7 +58,9 @@ MIN = {'overlapping_evaluations': 200, 'evaluations': 1000, 'falsy_plain': 300, 
        'invalid_scope_seen': 20, 'not_registered_seen': 100, 'debug_on_triples': 300, 'empty_ruleset_triples': 50,
        'related_name_probes': 800, 'related_name_probes.deprecated-old-name': 80, 'related_registered_compared': 300,
        'convention_triples': 800, 'convention_triples_denied': 400, 'convention_triples_allowed': 200,
-       'convention_triples_registered_name': 150, 'convention_calls': 50000}
+       'convention_triples_registered_name': 150, 'convention_calls': 50000,
+       'lookup_requests': 600, 'lookup_fallback_to_defined_default_denied': 80, 'lookup_fallback_to_other_default_name_denied': 30,
+       'lookup_secret_sensitive_allowed': 40}
 ANCHORS = ['oslo_policy.policy:Enforcer.enforce', 'oslo_policy.policy:Enforcer.authorize',
            'oslo_policy.policy:Enforcer._enforce_scope']
 REQUIRED_ANCHORS = ['oslo_policy.policy:Enforcer.enforce', 'oslo_policy.policy:Enforcer.authorize']
@@ -723,6 +734,337 @@ def check_related(ctx, worlds, case):
             tree.cleanup()
 
 
+# ---- stratum `lookup`: names served by the default rule x attributes whose keys / values look like secrets x debug logging ----
+LOOKUPS = {'quick': 440, 'thorough': 16000}
+# words the debug dump's masking (oslo.utils) treats as secret, as whole keys and as parts of keys
+SECRET_WORDS = ('password', 'token', 'secret', 'auth_token', 'admin_pass', 'private_key', 'passphrase', 'sslkey', 'new_pass',
+                'configdrive')
+_PLAIN_KEYS = ['kind', 'project_id', 'owner', 'type', 'scope_id', 'region']
+_VALUES = ['v1', 'v2', 'v1', 'v2', '7', 7, 'password=abc', 'admin_pass=x1']
+
+
+class MapCreds(collections.abc.MutableMapping):
+    """Credentials as a mapping that is not a dict (what RequestContext.to_policy_values() hands out)."""
+
+    def __init__(self, d):
+        self._d = d
+
+    def __getitem__(self, k):
+        return self._d[k]
+
+    def __setitem__(self, k, v):
+        self._d[k] = v
+
+    def __delitem__(self, k):
+        del self._d[k]
+
+    def __iter__(self):
+        return iter(self._d)
+
+    def __len__(self):
+        return len(self._d)
+
+
+def _attr_key(rnd, secret):
+    base = rnd.choice(_PLAIN_KEYS)
+    if not secret:
+        return base
+    w = rnd.choice(SECRET_WORDS)
+    shape = rnd.choice(['whole', 'prefix', 'suffix', 'infix', 'glued', 'title', 'upper'])
+    return {'whole': w, 'prefix': '%s_%s' % (w, base), 'suffix': '%s_%s' % (base, w), 'infix': 'x_%s_%s' % (w, base),
+            'glued': base + w, 'title': ('%s_%s' % (w, base)).title(), 'upper': ('%s_%s' % (base, w)).upper()}[shape]
+
+
+def lookup_leaf_text(leaf):
+    if leaf['form'] == 'role':
+        return 'role:%s' % leaf['role']
+    rhs = '%%(%s)s' % leaf['tkey'] if 'tkey' in leaf else leaf['rlit']
+    lhs = '.'.join(leaf['path']) if 'path' in leaf else "'%s'" % leaf['llit']
+    return '%s:%s' % (lhs, rhs)
+
+
+def _ref_find(value, path, match):
+    """Reference for an attribute path into the credentials: a list anywhere on the way matches if one element does."""
+    if isinstance(value, list):
+        return any(_ref_find(v, path, match) for v in value)
+    if not path:
+        return str(value) == match
+    if not isinstance(value, dict) or path[0] not in value:
+        return False
+    return _ref_find(value[path[0]], path[1:], match)
+
+
+def lookup_leaf_truth(leaf, creds, target):
+    if leaf['form'] == 'role':
+        return leaf['role'] in creds.get('roles', [])
+    if 'tkey' in leaf:
+        if leaf['tkey'] not in target:
+            return False
+        match = str(target[leaf['tkey']])
+    else:
+        match = leaf['rlit']
+    if 'llit' in leaf:
+        return match == leaf['llit']
+    return _ref_find(creds, leaf['path'], match)
+
+
+def _ref_mask(x):
+    """What the data would look like with every secret-looking key blanked (used ONLY to count how many requests have a
+    decision that depends on such an attribute - never in an oracle)."""
+    if isinstance(x, dict):
+        return {k: ('***' if isinstance(k, str) and not isinstance(v, dict) and any(w in k.lower() for w in SECRET_WORDS)
+                    else _ref_mask(v)) for k, v in x.items()}
+    if isinstance(x, list):
+        return [_ref_mask(v) for v in x]
+    return x
+
+
+def gen_lookup(rnd):
+    """A small rule set with a default rule (built-in name / Enforcer argument / configuration; defined as deny, allow, a
+    data-dependent rule, or not defined at all), credentials and a target whose keys and values contain the words the debug
+    dump masks (whole keys, parts of keys, other letter case, nested dictionaries and lists, dotted target keys), rules that
+    read those attributes, and names to request: defined ones, the default rule itself, names defined nowhere."""
+    creds, attrs = {'roles': [r for r in 'xyz' if rnd.random() < 0.5]}, []
+    for i in range(rnd.randint(2, 4)):
+        key = _attr_key(rnd, rnd.random() < 0.7)
+        val, other = rnd.choice(_VALUES), rnd.choice(_VALUES)
+        shape = rnd.choice(['top', 'top', 'nested', 'deep', 'list', 'list-leaf', 'secret-container'])
+        cont = '%s%d' % (rnd.choice(['user', 'subject', 'grant']), i)
+        if shape == 'top' and key not in creds:
+            creds[key] = val
+            path = [key]
+        elif shape == 'list-leaf' and key not in creds:
+            creds[key] = [other, val]
+            path = [key]
+        elif shape == 'deep':
+            creds[cont] = {'inner': {key: val, 'id': other}}
+            path = [cont, 'inner', key]
+        elif shape == 'list':
+            creds[cont] = [{key: other}, {key: val, 'n': 1}]
+            path = [cont, key]
+        elif shape == 'secret-container':
+            cont = '%s_%d' % (rnd.choice(SECRET_WORDS), i)
+            creds[cont] = {key: val}
+            path = [cont, key]
+        else:
+            creds[cont] = {key: val, 'name': other}
+            path = [cont, key]
+        attrs.append(dict(path=path, value=val))
+    target, tkeys = {}, []
+    for i in range(rnd.randint(2, 3)):
+        key = _attr_key(rnd, rnd.random() < 0.7)
+        if rnd.random() < 0.35:
+            key = 'target.%s.%s' % (rnd.choice(SECRET_WORDS), rnd.choice(_PLAIN_KEYS))
+        if key in target:
+            continue
+        target[key] = rnd.choice([a['value'] for a in attrs] + _VALUES[:2])
+        tkeys.append(key)
+    if rnd.random() < 0.3:
+        target['meta'] = {'password': 'p', 'items': [{'token': 't'}]}
+    leaves = []
+    for i in range(rnd.randint(1, 4)):
+        q = rnd.random()
+        a = rnd.choice(attrs)
+        if q < 0.12:
+            leaves.append(dict(form='role', role=rnd.choice('xyz')))
+        elif q < 0.6:
+            same = [k for k in tkeys if str(target[k]) == str(a['value'])]
+            leaves.append(dict(form='attr', path=a['path'], tkey=rnd.choice(same if same and rnd.random() < 0.6 else tkeys + ['absent'])))
+        elif q < 0.8:
+            leaves.append(dict(form='attr', path=a['path'], rlit=str(a['value'] if rnd.random() < 0.7 else rnd.choice(_VALUES))))
+        else:
+            k = rnd.choice(tkeys)
+            leaves.append(dict(form='attr', llit=str(target[k] if rnd.random() < 0.7 else rnd.choice(_VALUES)), tkey=k))
+    names, asts = [], {}
+    for _ in range(rnd.randint(2, 4)):
+        n = '%s:%s_%s' % (rnd.choice(_SVC), rnd.choice(_VERB), rnd.choice(_RES + ['token', 'secret']))
+        if n in asts:
+            continue
+        asts[n] = expr.random_ast(rnd, rnd.randint(0, 2), len(leaves), p_const=0.05, names=list(names), p_ref=0.15 if names else 0.0)
+        names.append(n)
+    default_via = rnd.choice(['builtin', 'builtin', 'arg', 'conf'])
+    default_name = 'default' if default_via == 'builtin' else rnd.choice(['deflt:any', 'admin_required', 'Default', 'fallback_token_rule'])
+    default_state = rnd.choice(['deny', 'deny', 'allow', 'data', 'data', 'undefined'])
+    if default_state != 'undefined':
+        asts[default_name] = (('const', default_state == 'allow') if default_state in ('deny', 'allow')
+                              else expr.random_ast(rnd, rnd.randint(0, 2), len(leaves), p_const=0.05, names=list(names), p_ref=0.1))
+    if default_via != 'builtin' and rnd.random() < 0.4:
+        asts['default'] = ('const', rnd.random() < 0.5)         # a rule that is merely CALLED default
+    source = rnd.choice(['dict', 'dict', 'dict', 'dict', 'file'])
+    registered = [n for n in names if rnd.random() < 0.4]
+    extra = None
+    if rnd.random() < 0.35:
+        # a registered policy the rule set does not mention (a file-backed enforcer adds its registered check string; an
+        # enforcer with in-memory rules and use_conf=False serves it like any other undefined name)
+        extra = dict(name='%s:%s_%s:registered' % (rnd.choice(_SVC), rnd.choice(_VERB), rnd.choice(_RES)),
+                     ast=expr.random_ast(rnd, rnd.randint(0, 1), len(leaves), p_const=0.3))
+    requests = [['defined', n] for n in names] + [['default-rule-itself', default_name]]
+    if 'default' in asts and default_name != 'default':
+        requests.append(['defined', 'default'])
+    base = rnd.choice(names)
+    undefined = ['%s:%s_%s:nowhere' % (rnd.choice(_SVC), rnd.choice(_VERB), rnd.choice(_RES)),
+                 'identity:%s_%s' % (rnd.choice(_VERB), rnd.choice(SECRET_WORDS)),
+                 rnd.choice([base.upper(), base + 's', base[:-1], base + ' ', base.replace(':', '.'), 'rule:' + base])]
+    requests += [['undefined', n] for n in undefined if n not in asts]
+    if extra:
+        requests.append(['registered-not-in-rule-set', extra['name']])
+    g = gen_case(rnd)
+    return dict(lookup=True, creds=creds, target=target, leaves=leaves, asts=asts, default_via=default_via,
+                default_name=default_name, source=source, fmt=rnd.choice(['json', 'yaml']), registered=registered, extra=extra,
+                requests=requests, creds_as=rnd.choice(['dict', 'dict', 'dict', 'mapping']), exc_args=g['exc_args'],
+                exc_kwargs=g['exc_kwargs'])
+
+
+def check_lookup(ctx, worlds, case):
+    """Every requested name in the three modes of enforce and of authorize, with debug logging off and on: the modes are
+    related as the statement says and PolicyNotAuthorized names the REQUESTED policy (also when the default rule served the
+    request); the decision is that of the rule on the caller's own target and credentials (reference evaluation), the same
+    with debug logging on; inputs unmodified."""
+    import os
+    from pv.gen import files
+    policy = worlds[True].policy
+    args, kwargs = tuple(case['exc_args']), dict(case['exc_kwargs'])
+    leaves, dn, extra = case['leaves'], case['default_name'], case['extra']
+    asts = case['asts']
+    texts = {n: expr.spell(expr.to_tokens(a, lambda i: lookup_leaf_text(leaves[i]))) for n, a in asts.items()}
+    effective = dict(asts)
+    if extra:
+        extra_text = expr.spell(expr.to_tokens(extra['ast'], lambda i: lookup_leaf_text(leaves[i])))
+        if case['source'] == 'file':
+            effective[extra['name']] = extra['ast']
+    creds0, target0 = json.loads(json.dumps(case['creds'])), json.loads(json.dumps(case['target']))
+
+    def resolve(n):
+        return effective[n] if n in effective else effective.get(dn)
+
+    def expected(n, creds, target):
+        ast = resolve(n)
+        if ast is None:
+            return False                        # defined nowhere and no usable default rule: denied
+        truth = [lookup_leaf_truth(leaf, creds, target) for leaf in leaves]
+        return bool(expr.ev(ast, truth, None, resolve))
+
+    overrides = {}
+    if case['default_via'] == 'conf':
+        overrides['policy_default_rule'] = dn
+    default_arg = dn if case['default_via'] == 'arg' else None
+    tree = None
+    try:
+        if case['source'] == 'file':
+            tree = files.Tree(dirs=(), main='policy.' + case['fmt'])
+            tree.write(os.path.basename(tree.main), texts, case['fmt'])
+            enf = policy.Enforcer(tree.conf(policy_dirs=[], **overrides), default_rule=default_arg)
+        else:
+            enf = policy.Enforcer(env.fresh_conf(**overrides), use_conf=False, default_rule=default_arg)
+        registered = list(case['registered'])
+        for n in registered:
+            enf.register_default(policy.RuleDefault(n, texts[n]))
+        if extra:
+            enf.register_default(policy.RuleDefault(extra['name'], extra_text))
+            registered.append(extra['name'])
+        if case['source'] == 'dict':
+            enf.set_rules(policy.Rules.from_dict(texts))
+
+        snap_c, snap_t = snapshot(creds0), snapshot(target0)
+
+        def run_modes(fn, name):
+            res, unchanged = {}, True
+            for mode in ('plain', 'raise', 'custom'):
+                cd, t = copy.deepcopy(creds0), copy.deepcopy(target0)
+                c = MapCreds(cd) if case['creds_as'] == 'mapping' else cd
+                if mode == 'plain':
+                    res[mode] = outcome(lambda: fn(name, t, c))
+                elif mode == 'raise':
+                    res[mode] = outcome(lambda: fn(name, t, c, do_raise=True))
+                else:
+                    res[mode] = outcome(lambda: fn(name, t, c, True, CustomDenied, *args, **kwargs))
+                if snapshot(dict(c.items())) != snap_c or snapshot(t) != snap_t:
+                    unchanged = False
+            return res, unchanged
+
+        seen = {False: {}, True: {}}
+        any_denied = False
+        for debug in (False, True):
+            suffix = '-under-debug-logging' if debug else ''
+            cm = env.debug_logging() if debug else None
+            if cm:
+                cm.__enter__()
+            try:
+                for kind, name in case['requests']:
+                    res, unchanged = run_modes(enf.enforce, name)
+                    detail = {k: describe(v) for k, v in res.items()}
+                    seen[debug][name] = detail
+                    info = dict(detail, api='enforce', name=name, request=kind, debug=debug)
+                    key = relate_modes(policy, res, name, args, kwargs)
+                    if key:
+                        ctx.violation(key + suffix, case, info)
+                    if not unchanged:
+                        ctx.violation('inputs-modified', case, info)
+                    p = res['plain']
+                    if kind == 'registered-not-in-rule-set' and case['source'] == 'dict':
+                        ctx.unconstrained('registered-default-of-an-enforcer-with-in-memory-rules')
+                    elif p[0] == 'ret':
+                        exp = expected(name, creds0, target0)
+                        if bool(p[1]) != exp:
+                            ctx.violation('decision-not-that-of-the-rule-on-the-callers-data' + suffix, case,
+                                          dict(info, expected=exp, rule=texts.get(name), default_rule=texts.get(dn)))
+                    ares, aunchanged = run_modes(enf.authorize, name)
+                    adetail = {k: describe(v) for k, v in ares.items()}
+                    if name in registered:
+                        akey = relate_modes(policy, ares, name, args, kwargs)
+                        if akey:
+                            ctx.violation('authorize-' + akey, case, dict(adetail, api='authorize', name=name, debug=debug))
+                        elif adetail != detail:
+                            ctx.violation('authorize-differs-from-enforce', case,
+                                          {'name': name, 'enforce': detail, 'authorize': adetail, 'debug': debug})
+                    else:
+                        bad = [m for m, v in ares.items() if not (v[0] == 'exc' and isinstance(v[1], policy.PolicyNotRegistered))]
+                        if bad:
+                            ctx.violation('authorize-unregistered-not-refused', case,
+                                          {'name': name, 'relation': kind, 'modes': bad, 'observed': adetail})
+                    if not aunchanged:
+                        ctx.violation('inputs-modified', case, dict(adetail, api='authorize', name=name, debug=debug))
+                    if debug:
+                        continue
+                    # what this request exercised (counted once, with logging off)
+                    ctx.count('lookup_requests')
+                    denied = p[0] == 'ret' and not p[1]
+                    any_denied = any_denied or denied
+                    named = denied and res['raise'][0] == 'exc' and type(res['raise'][1]) is policy.PolicyNotAuthorized
+                    if name not in effective:
+                        if dn not in effective:
+                            ctx.count('lookup_fallback_default_undefined')
+                        elif named:
+                            ctx.count('lookup_fallback_to_defined_default_denied')
+                            if case['default_via'] != 'builtin':
+                                ctx.count('lookup_fallback_to_other_default_name_denied')
+                        elif not denied:
+                            ctx.count('lookup_fallback_to_defined_default_allowed')
+                    if p[0] == 'ret' and expected(name, creds0, target0) != expected(name, _ref_mask(creds0), _ref_mask(target0)):
+                        ctx.count('lookup_secret_sensitive_requests')
+                        if not denied:
+                            ctx.count('lookup_secret_sensitive_allowed')
+            finally:
+                if cm:
+                    cm.__exit__(None, None, None)
+        for name in seen[False]:
+            if seen[False][name] != seen[True][name]:
+                ctx.violation('debug-logging-changes-outcome', case,
+                              {'name': name, 'logging_off': seen[False][name], 'logging_on': seen[True][name]})
+        ctx.count('lookup_worlds')
+        if case['creds_as'] == 'mapping':
+            ctx.count('lookup_mapping_creds_worlds')
+        if case['source'] == 'file':
+            ctx.count('lookup_file_worlds')
+        ctx.case(['lookup', texts, case['creds'], case['target'], case['requests'], case['default_via'], case['source']],
+                 any_denied, 'lookup')
+        for cname, info in contracts.drain():
+            ctx.violation('do_raise-returns-falsy', case, {'contract': cname, 'observed': info})
+    finally:
+        if tree is not None:
+            tree.cleanup()
+
+
 OVERLAPS = {'quick': 10, 'thorough': 200}
 MODES =['plain', 'raise', 'custom', 'authorize-plain', 'authorize-custom']
 
@@ -789,6 +1131,15 @@ def run(ctx):
     contracts.enforce_do_raise_truthy()
     worlds = {True: World(True), False: World(False)}
     try:
+        # names served by the default rule x secret-looking attribute keys x debug logging (first: small, and never starved)
+        ctx.stratum('lookup', exhaustive=False)
+        for i in range(LOOKUPS[ctx.tier] // ctx.nshards + 1):
+            if (i & 0xf) == 0 and ctx.expired():
+                break
+            lcase = gen_lookup(ctx.sub_rnd('L', ctx.tier, ctx.shard, i))
+            check_lookup(ctx, worlds, lcase)
+            if i % 60 == 0:
+                ctx.sample(lcase, 'lookup')
         n = N[ctx.tier] // ctx.nshards + 1
         for i in range(n):
             if (i & 0x3f) == 0 and ctx.expired():
@@ -846,6 +1197,8 @@ def replay(ctx, case):
             return check_overlap(ctx, worlds, case)
         if case.get('related'):
             return check_related(ctx, worlds, case)
+        if case.get('lookup'):
+            return check_lookup(ctx, worlds, case)
         check_case(ctx, worlds, case)
     finally:
         for w in worlds.values():
